@@ -170,6 +170,17 @@ def stackToExpr : Nat → List Item → SRes
 
 def stackFuel (stack : List Item) : Nat := stack.length + 1
 
+/-- the last lines of `parse_sub_expression`: nothing, the single expression, or a sequence -/
+def wrapExprs (stop : Ch) (rest : Str) : List Expr → PRes (Ch × Option Expr × Str)
+  | [] => .ok (stop, none, rest)
+  | [e] => .ok (stop, some e, rest)
+  | es => .ok (stop, some (.seq es), rest)
+
+/-- `if let Some(e) = … { expressions.push(e) }` -/
+def addOpt (exprs : List Expr) : Option Expr → List Expr
+  | some e => exprs ++ [e]
+  | none => exprs
+
 /-- end of `parse_sub_expression` (after the token loop) -/
 def finishSub (stop : Ch) (rest : Str) (exprs : List Expr) (stack : List Item) :
     PRes (Ch × Option Expr × Str) :=
@@ -178,12 +189,7 @@ def finishSub (stop : Ch) (rest : Str) (exprs : List Expr) (stack : List Item) :
   | .outOfFuel => .outOfFuel
   | .err e => .err e
   | .ok e stack' =>
-    let exprs := match e with | some e => exprs ++ [e] | none => exprs
-    if !stack'.isEmpty then .err .failedEvaluate
-    else match exprs with
-      | [] => .ok (stop, none, rest)
-      | [e] => .ok (stop, some e, rest)
-      | es => .ok (stop, some (.seq es), rest)
+    if stack'.isEmpty then wrapExprs stop rest (addOpt exprs e) else .err .failedEvaluate
 
 def pushOpt (stack : List Item) : Option Expr → List Item
   | none => stack
@@ -271,8 +277,8 @@ def parseSub : Nat → List Ch → Str → List Expr → List Item → PRes (Ch 
       | .outOfFuel => .outOfFuel
       | .err e => .err e
       | .ok e stack' =>
-        if !stack'.isEmpty then .err .failedEvaluate
-        else parseSub fuel stops rest (match e with | some e => exprs ++ [e] | none => exprs) []
+        if stack'.isEmpty then parseSub fuel stops rest (addOpt exprs e) []
+        else .err .failedEvaluate
     | (.error e, _) => .err (.lex e)
 
 /-- `parse_argument_list` -/
